@@ -92,6 +92,16 @@ func RunHistory(seed uint64, r *rng.R, work string, opt apphist.Options, cfg Con
 			for q := r.Intn(4); q > 0; q-- {
 				s.RandomQuery()
 			}
+			// follow the most recent proposal through its life cycle: by-hash queries at a height before it
+			// existed and at the height right after its voting closed, asked again at every later block
+			if n := len(s.Props); n > 0 {
+				p := s.Props[n-1]
+				for _, h := range []int64{p.Start - 2, p.End + 1} {
+					if h >= 1 && h <= s.Height {
+						s.Query("proposal", p.Hash, h)
+					}
+				}
+			}
 		}
 		if cfg.Restarts && r.Chance(15) {
 			if err := s.Restart(); err != nil {
